@@ -147,8 +147,143 @@ func rulePAIR1(w *World) []Ob {
 		} else {
 			l.bad(p.FuncID(fn), "lookup compares text with child.name over children", p.Pos(fn.Pos()), "findChildByText no longer compares its argument for equality with each child's name", "lookup")
 		}
+		// a second container consulted by the lookup (an index) must mirror children
+		for _, o := range lookupIndexObligations(p, fn) {
+			l.add(o)
+		}
 	}
 	return l.list
+}
+
+// lookupIndexObligations: if the lookup reads a container field of the node other than children (a name index), then
+// wherever a node is appended to children the same node must reach the index: either the index is created after the
+// append by a loop over the whole children slice, or the appended node is inserted explicitly.
+func lookupIndexObligations(p *Prog, lookup *ssa.Function) []Ob {
+	var out []Ob
+	recv := lookup.Params[0]
+	idxFields := map[string]bool{}
+	allInstrs(lookup, func(in ssa.Instruction) {
+		var x ssa.Value
+		switch i := in.(type) {
+		case *ssa.Lookup:
+			x = i.X
+		case *ssa.IndexAddr:
+			x = i.X
+		case *ssa.Range:
+			x = i.X
+		default:
+			return
+		}
+		if ld, ok := isLoad(stripConv(x)); ok {
+			if fa, ok := ld.(*ssa.FieldAddr); ok && sameVar(fa.X, recv) {
+				if f := fieldName(fa.X.Type(), fa.Field); f != "children" {
+					idxFields[f] = true
+				}
+			}
+		}
+	})
+	for _, f := range sortedKeys(idxFields) {
+		construct := "index " + f + " mirrors children"
+		bad := ""
+		nApp := 0
+		for _, g := range libFuncs(p) {
+			if recvTypeName(g) != "Node" || g.Parent() != nil {
+				continue
+			}
+			var app *ssa.Store
+			var appended ssa.Value
+			allInstrs(g, func(in ssa.Instruction) {
+				st, ok := in.(*ssa.Store)
+				if !ok {
+					return
+				}
+				fa, ok := st.Addr.(*ssa.FieldAddr)
+				if !ok || fieldName(fa.X.Type(), fa.Field) != "children" {
+					return
+				}
+				if c, ok := st.Val.(*ssa.Call); ok {
+					if b, ok := c.Common().Value.(*ssa.Builtin); ok && b.Name() == "append" {
+						if els, ok := variadicElems(c.Common().Args[1]); ok && len(els) == 1 {
+							app, appended = st, els[0]
+						}
+					}
+				}
+			})
+			if app == nil {
+				continue
+			}
+			nApp++
+			// explicit inserts of the appended node, creations of the index
+			var inserts []*ssa.MapUpdate
+			var creations []*ssa.Store
+			fullFill := map[*ssa.Store]bool{}
+			allInstrs(g, func(in ssa.Instruction) {
+				switch x := in.(type) {
+				case *ssa.MapUpdate:
+					if ld, ok := isLoad(stripConv(x.Map)); ok {
+						if fa, ok := ld.(*ssa.FieldAddr); ok && fieldName(fa.X.Type(), fa.Field) == f && sameVar(x.Value, appended) {
+							inserts = append(inserts, x)
+						}
+					}
+				case *ssa.Store:
+					if fa, ok := x.Addr.(*ssa.FieldAddr); ok && fieldName(fa.X.Type(), fa.Field) == f {
+						if _, isMk := x.Val.(*ssa.MakeMap); isMk {
+							creations = append(creations, x)
+						}
+					}
+				}
+			})
+			for _, c := range creations {
+				// a fill loop over the whole children slice reachable from the creation
+				allInstrs(g, func(in ssa.Instruction) {
+					mu, ok := in.(*ssa.MapUpdate)
+					if !ok || !inLoop(mu) || !canReach(c.Block(), mu.Block()) {
+						return
+					}
+					if ld, ok := isLoad(stripConv(mu.Value)); ok {
+						if ia, ok := ld.(*ssa.IndexAddr); ok {
+							if base, ok := isLoad(stripConv(ia.X)); ok {
+								if fa, ok := base.(*ssa.FieldAddr); ok && fieldName(fa.X.Type(), fa.Field) == "children" {
+									fullFill[c] = true
+								}
+							}
+						}
+					}
+				})
+			}
+			for _, c := range creations {
+				covered := false
+				if fullFill[c] && dominatesInstr(app, c) {
+					covered = true // created after the append from all children: the new node is in
+				}
+				for _, u := range inserts {
+					if canReach(c.Block(), u.Block()) {
+						covered = true
+					}
+				}
+				if !covered {
+					why := "the appended node is not inserted on that path"
+					if !fullFill[c] {
+						why = "it is not filled from the whole children slice"
+					} else if !dominatesInstr(app, c) {
+						why = "it is filled before the new node is appended, and the new node is not inserted afterwards"
+					}
+					bad = fmt.Sprintf("%s creates the index %s at %s but %s: the lookup (which trusts the index once it exists) cannot find that child, so an equally named sibling is added twice", p.FuncID(g), f, p.InstrPos(c), why)
+				}
+			}
+			if len(creations) == 0 && len(inserts) == 0 {
+				bad = fmt.Sprintf("%s appends to children but never updates the index %s that the lookup reads", p.FuncID(g), f)
+			}
+		}
+		if nApp == 0 {
+			out = append(out, Ob{Rule: "PAIR-1", Cfg: "D", Func: p.FuncID(lookup), Construct: construct, Pos: p.Pos(lookup.Pos()), Status: Undecided, Nontrivial: true, Role: "lookup", Detail: "the lookup reads " + f + " but no function appending to children was found"})
+		} else if bad != "" {
+			out = append(out, Ob{Rule: "PAIR-1", Cfg: "D", Func: p.FuncID(lookup), Construct: construct, Pos: p.Pos(lookup.Pos()), Status: Violation, Nontrivial: true, Role: "lookup", Detail: bad})
+		} else {
+			out = append(out, Ob{Rule: "PAIR-1", Cfg: "D", Func: p.FuncID(lookup), Construct: construct, Pos: p.Pos(lookup.Pos()), Status: OK, Nontrivial: true, Role: "lookup", Detail: "every append to children reaches the index (created from the whole slice after the append, or inserted explicitly)"})
+		}
+	}
+	return out
 }
 
 func loopsOverField(fn *ssa.Function, field string) bool {
@@ -608,13 +743,18 @@ func rulePAIR4(w *World) []Ob {
 				}
 			}
 		}
-		if len(e.AnonFuncs) == 1 && returnsClosure(e) {
-			body = e.AnonFuncs[0]
+		if len(e.AnonFuncs) >= 1 && returnsClosure(e) {
+			if len(e.AnonFuncs) == 1 {
+				body = e.AnonFuncs[0]
+			}
 			// an iterator constructor does nothing but build the closure: everything (validation,
 			// configuration, growing) happens when the sequence is ranged over, on the tree as it is then
 			early := ""
 			allInstrs(e, func(in ssa.Instruction) {
 				if ci, ok := in.(ssa.CallInstruction); ok {
+					if f := ci.Common().StaticCallee(); f != nil && fname(f) == "validateTreeRoot" {
+						return // whether the argument is a root cannot change between obtaining and ranging the sequence
+					}
 					early = calleeString(ci.Common()) + " at " + p.InstrPos(in)
 				}
 			})
